@@ -180,8 +180,11 @@ def controller_tables(ctx):
         if not evs:
             continue
         n += 1
-        s = norm(m)
-        removes = any(x in s for x in ('del self.le_connections[', 'del self.classic_connections[', 'del self.sco_links[', 'self.le_connections.pop(', 'self.classic_connections.pop(', 'self.sco_links.pop(', 'cis_link.acl_connection = None', 'self.central_cis_links', 'self.peripheral_cis_links'))
+        # the table the reported link lives in, by the kind of link the handler is about
+        kind = 'cis' if '_cis_' in name else 'sco' if '_sco_' in name else 'classic' if 'classic' in name else 'le'
+        tables = {'cis': ('peripheral_cis_links',), 'sco': ('sco_links',), 'classic': ('classic_connections',), 'le': ('le_connections',)}[kind]
+        removes = any((isinstance(d, ast.Delete) and any(isinstance(t, ast.Subscript) and (dotted(t.value) or '').split('.')[-1] in tables for t in d.targets)) for d in walk_local(m)) \
+            or any(call_attr(c) == 'pop' and (dotted(c.func.value) or '').split('.')[-1] in tables for c in calls_in(m))
         R.check(removes, rule, f'bumble.controller.Controller.{name}', 'the link reported as disconnected is removed / detached in the same handler', f'{name} reports a disconnection but keeps the link in the controller\'s table (host and controller disagree on live connections)', p.loc(m))
     R.check(n >= 3, rule, 'bumble.controller.Controller | disconnect handlers', f'{n}', f'only {n} handlers emit Disconnection Complete')
 
@@ -860,8 +863,8 @@ VARIANTS = [
     ('device forgets the gatt server', 'bumble/device.py', "            # Cleanup subsystems that maintain per-connection state\n            self.gatt_server.on_disconnection(connection)\n", "", 'fire', 'C16.'),
     ('eatt close hook removed', 'bumble/gatt_server.py', "            channel.once(channel.EVENT_CLOSE, lambda: self.on_disconnection(channel))\n", "", 'fire', 'C16.variants'),
     ('LE channel abort guards everything by state', 'bumble/l2cap.py',
-     "        if self.state in (self.State.CONNECTED, self.State.DISCONNECTING):\n            self._change_state(self.State.DISCONNECTED)\n            self.manager.on_channel_closed(self)\n        if self.connection_result is not None:",
-     "        if self.state not in (self.State.CONNECTED, self.State.DISCONNECTING):\n            return\n        self._change_state(self.State.DISCONNECTED)\n        self.manager.on_channel_closed(self)\n        if self.connection_result is not None:", 'fire', 'C16.waiters'),
+     '        was_open = self.state in (self.State.CONNECTED, self.State.DISCONNECTING)\n        if was_open:\n            self.manager.on_channel_closed(self)\n        if self.connection_result is not None:',
+     '        was_open = self.state in (self.State.CONNECTED, self.State.DISCONNECTING)\n        if not was_open:\n            return\n        self.manager.on_channel_closed(self)\n        if self.connection_result is not None:', 'fire', 'C16.waiters'),
     ('sdp request awaits bare again', 'bumble/sdp.py', "                return await self.connection.cancel_on_disconnection(\n                    self.pending_response\n                )\n", "                return await self.pending_response\n", 'fire', 'C16.waiters'),
     ('gatt client no longer cancels the pending request', 'bumble/gatt_client.py', "        if self.pending_response and not self.pending_response.done():\n            self.pending_response.cancel()\n", "        pass\n", 'fire', 'C16.parity'),
     ('controller keeps the LE connection', 'bumble/controller.py', "        del self.le_connections[connection.peer_address]\n\n    def create_le_connection", "\n    def create_le_connection", 'fire', 'C16.controller-tables'),
